@@ -211,6 +211,24 @@ def handleSharks (toks : List String) : String :=
         let xs := ((pats.splitOn ",").foldl step (0, [])).2
         "ok " ++ hexs (xs.map fun n => Sharks.shareToBytes (Sharks.evaluate polys (n % Fp.p)))
     | _, _, _ => "bad-op"
+  | ["sharks.interp", shares] =>
+    -- the public free function `interpolate` on the shares exactly as given (no dedup, no checks)
+    match parseSharksShares shares with
+    | some sh => showOutcomeBytes (Sharks.interpolate sh)
+    | none => "bad-op"
+  | ["sharks.interp"] => showOutcomeBytes (Sharks.interpolate [])
+  | ["sharks.rpoly", s, k, sd] =>
+    match (Bytes.ofHex s).bind Fp.fromRepr, k.toNat?, sd.toNat? with
+    | some s, some k, some sd =>
+      match Sharks.randomPolynomial smNext fuel s k (UInt64.ofNat sd) with
+      | none => "fuel"
+      | some (_, cs) => "ok " ++ hexs (cs.map Fp.toRepr)
+    | _, _, _ => "bad-op"
+  | ["sharks.geteval", polys, n] =>
+    -- `get_evaluator(polys)` then `n` times `next`; polynomials separated by `|`
+    match (polys.splitOn "|").mapM (fun p => (parseHexList p).bind fun l => l.mapM Fp.fromRepr), n.toNat? with
+    | some ps, some n => "ok " ++ hexs ((nextShares ps n 0).map Sharks.shareToBytes)
+    | _, _ => "bad-op"
   | ["sharks.recover", t, shares] =>
     match t.toNat?, parseSharksShares shares with
     | some t, some sh => showOutcomeBytes (Sharks.recover t sh)
